@@ -81,6 +81,8 @@ class BasicObligationChecker(ObligationChecker):
 
             typ = (ob or {}).get("type")
             attrs = (ob or {}).get("attrs") or {}
+            if not isinstance(attrs, dict):
+                attrs = {}  # ill-typed attrs: treat as absent instead of raising
 
             # --- MFA ---
             if typ == "require_mfa":
@@ -93,7 +95,10 @@ class BasicObligationChecker(ObligationChecker):
                     min_level = int(attrs.get("min", 0))
                 except Exception:
                     min_level = 0
-                cur_level = int(ctx.get("auth_level", 0) or 0)
+                try:
+                    cur_level = int(ctx.get("auth_level", 0) or 0)
+                except Exception:
+                    return False, "step_up"  # ill-typed level counts as unmet (fail closed)
                 if cur_level < min_level:
                     return False, "step_up"
 
@@ -112,7 +117,11 @@ class BasicObligationChecker(ObligationChecker):
                         return False, "consent"
                 else:
                     consent = ctx.get("consent") or {}
-                    if not bool(consent.get(key)):
+                    try:
+                        granted = bool(consent.get(key))
+                    except Exception:
+                        granted = False  # ill-typed consent value or key counts as unmet
+                    if not granted:
                         return False, "consent"
 
             # --- Terms of Service ---
@@ -131,7 +140,10 @@ class BasicObligationChecker(ObligationChecker):
                     max_age = int(attrs.get("max_age", 0))
                 except Exception:
                     max_age = 0
-                reauth_age = int(ctx.get("reauth_age_seconds", 0) or 0)
+                try:
+                    reauth_age = int(ctx.get("reauth_age_seconds", 0) or 0)
+                except Exception:
+                    return False, "reauth"  # ill-typed age counts as unmet (fail closed)
                 if reauth_age > max_age:
                     return False, "reauth"
 
